@@ -129,6 +129,21 @@ CHECKS.update({
                 ref="5/C19", note=E23_NOTE + " " + E1_NOTE),
 })
 
+CHECKS.update({
+    "C09": dict(engine="E6", category="exploration",
+                technique="enumerated configuration grid, each point run as fresh "
+                          "processes under controlled PYTHONHASHSEED / clock answers; "
+                          "trace equality",
+                text="Exploration level: the configuration grid (random sources x "
+                     "policies x seeds) is enumerated completely, the hash-seed / "
+                     "wall-clock / machine dimension only at three fixed points; plus "
+                     "in-process double runs over S-dag/S-cond.",
+                ref="5/C09",
+                note="Trusted base: harness; the OS process model. Determinism across "
+                     "machines is argued from the absence of any other environment "
+                     "input, not enumerated."),
+})
+
 NOT_YET = {}
 
 
@@ -188,6 +203,8 @@ def main():
 
 
 ENGINES = [
+    {"name": "E6", "path": "vf/checks/c09.py", "serves_properties": ["C09"],
+     "kind_free_text": "fresh-process determinism harness (hash seed, clock skew)"},
     {"name": "E2", "path": "vf/checks/c04.py", "serves_properties": ["C04", "C16", "C18"],
      "kind_free_text": "explicit-state BFS over operation histories on real objects "
                        "(state = history, rebuilt on fresh objects), reference model"},
